@@ -289,8 +289,8 @@ class VN:
                 if r is not None:
                     return r
             return self.sym(k)
-        if k is not None and "." in k and self.is_xp(k.split(".")[0]) and k.split(".")[0] not in st.env:
-            k = "np." + k.split(".", 1)[1]  # one spelling for attributes of the array module
+        if k is not None and "." in k and self.is_xp(k.split(".")[0]) and not isinstance(st.env.get(k.split(".")[0]), (tuple, Obj, Closure)):
+            k = "np." + k.split(".", 1)[1]  # one spelling for attributes of the array module (whatever the local is called or bound to)
         if k in ("np.pi", "math.pi"):
             return T.sym("pi", real=True)
         if k in ("np.inf", "math.inf"):
@@ -752,7 +752,10 @@ class VN:
         if tgt is not None and tgt[0] == "repo":
             fn = tgt[1]
             if fn.qual == "sigpy.backend.copyto":
-                return self.do_copyto(e, args, st)
+                b_ = self.model.bind(e, fn)   # positional or keyword spelling
+                if not isinstance(b_.get("output"), ast.AST) or not isinstance(b_.get("input"), ast.AST):
+                    raise Unrecognised("copyto call", e)
+                return self.do_copyto(e, [None, self.ev(b_["input"], st)], st, b_["output"])
             if fn.qual in ("sigpy.backend.to_device",):
                 return args[0]
             if fn.qual in self.inline and self.depth < self.max_depth:
@@ -781,13 +784,32 @@ class VN:
         if r is not None:
             return r
         label = name or k or unparse(f)
+        if (name or "").startswith("numpy.") and short in ("zeros", "ones", "empty") and not any(isinstance(a, ast.Starred) for a in e.args):
+            # one spelling for np.zeros(shape, dtype) / np.zeros(shape, dtype=..) / np.zeros(shape=.., dtype=..)
+            args, kw = list(args), dict(kw)
+            if not args and "shape" in kw:
+                args = [kw.pop("shape")]
+            if len(args) == 2 and "dtype" not in kw:
+                kw["dtype"] = args.pop()
         allargs = [self._as_term(a) for a in args] + [T.app("kw:" + kk, self._as_term(v)) for kk, v in sorted(kw.items())]
         if name is None and k is None and isinstance(f, ast.Attribute):
             # method of a computed value: keep the receiver as a term, not as source text
             if recv is not None:
                 return T.app("method:" + f.attr, self._as_term(recv), *allargs)
         if k is not None and isinstance(st.env.get(k), T.Poly) and name is None:
-            # callee is a value held in a variable (bound comprehension variable, user callable passed in)
+            # callee is a value held in a variable (bound comprehension variable, user callable passed in); when that value is itself
+            # a plain dotted name (`AH = self.A.H; AH(x)`, `f = np.fft.fftn; f(x)`) the call reads like the direct spelling
+            lab = _dotted_of(st.env[k])
+            if lab is not None:
+                if lab.startswith("np."):
+                    short2 = lab.split(".")[-1]
+                    r2 = self.numpy_call(short2, "numpy." + lab[3:], e, args, kw, st)
+                    if r2 is not None:
+                        return r2
+                    if short2 in REAL_NUMPY:
+                        return T.app("call:numpy." + lab[3:], *allargs, real=True)
+                    return T.app("call:numpy." + lab[3:], *allargs)
+                return T.app("call:" + lab, *allargs)
             return T.app("callv", st.env[k], *allargs)
         if (name or "").startswith("numpy.") and short in REAL_NUMPY:
             return T.app("call:" + label, *allargs, real=True)
@@ -859,8 +881,8 @@ class VN:
             for k0, v0 in st.env.items():
                 if k0 == "self" or k0.startswith("self."):
                     env.setdefault(k0, v0)
-        sub = VN(self.model, fn, self.real, self.scalars, self.inline, self.max_depth, self.depth + 1,
-                 self.call_hook, self.name_hook if is_self_call else None, self.loop_hook)
+        sub = type(self)(self.model, fn, self.real, self.scalars, self.inline, self.max_depth, self.depth + 1,
+                         self.call_hook, self.name_hook if is_self_call else None, self.loop_hook)
         outs = [o_ for o_ in sub.run(fn.body, State(env, list(st.conds))) if o_.status != "raise"]
         if len(outs) > 1 and len(outs) <= 8 and all(o_.status == "return" and o_.ret is not None for o_ in outs):
             # a pure helper with several return paths: its value is the conditional expression over its own path conditions (the
@@ -910,8 +932,8 @@ class VN:
         st.events.extend(o.events)
         return o.ret if o.status == "return" and o.ret is not None else NONE
 
-    def do_copyto(self, call, args, st):
-        k = self.key_of(call.args[0])
+    def do_copyto(self, call, args, st, out_node=None):
+        k = self.key_of(out_node if out_node is not None else call.args[0])
         if k is None:
             raise Unrecognised("copyto into a non-name", call)
         st.update_in_place(k, args[1])
@@ -1074,6 +1096,15 @@ class VN:
             if args and all(i is not None and i.denominator == 1 for i in ints) and len(range(*[int(i) for i in ints])) <= 16:
                 return tuple(T.const(i) for i in range(*[int(i) for i in ints]))
             return T.app("range", *[self._as_term(x) for x in args], real=True)
+        if short == "issubdtype" and len(args) == 2 and isinstance(a0, T.Poly):
+            # the dtype of x.astype(np.complex64 / np.complex128) is a complex floating type
+            aa = a0.single_atom()
+            if aa is not None and aa[0] == "app" and aa[1] == "attr:dtype" and T.show(args[1], 60) in ("np.complexfloating", "numpy.complexfloating"):
+                inner = T.dec(aa[2][0])
+                ia = inner.single_atom() if isinstance(inner, T.Poly) else None
+                if ia is not None and ia[0] == "app" and ia[1] == "astype" and len(ia[2]) >= 2 and \
+                        T.show(T.dec(ia[2][1]), 40) in ("np.complex64", "np.complex128", "np.complex_", "complex"):
+                    return TRUE
         if short == "isscalar" and args:
             return T.app("isscalar", self._as_term(a0), real=True)
         if short == "isinstance":
@@ -1142,6 +1173,7 @@ class VN:
                 try:
                     s2.ret = _replace_atom(st.ret, atom, repl) if isinstance(st.ret, (T.Poly, tuple)) else st.ret
                     s2.env = {k: (_replace_atom(v, atom, repl) if isinstance(v, (T.Poly, tuple)) else v) for k, v in st.env.items()}
+                    s2.events = [tuple((_replace_atom(x, atom, repl) if isinstance(x, T.Poly) else x) for x in ev_) for ev_ in st.events]
                 except TypeError:
                     out.append(st)
                     break
@@ -1220,8 +1252,8 @@ class VN:
             for k0, v0 in st.env.items():
                 if k0 == "self" or k0.startswith("self."):
                     env.setdefault(k0, v0)
-        sub = VN(self.model, fn, self.real, self.scalars, self.inline, self.max_depth, self.depth + 1,
-                 self.call_hook, self.name_hook if is_self_call else None, self.loop_hook)
+        sub = type(self)(self.model, fn, self.real, self.scalars, self.inline, self.max_depth, self.depth + 1,
+                         self.call_hook, self.name_hook if is_self_call else None, self.loop_hook)
         outs = [o_ for o_ in sub.run(fn.body, State(env, list(st.conds), alias=st.alias if is_self_call else None)) if o_.status != "raise"]
         if not outs or len(outs) > 16:
             raise Unrecognised("inlined helper %s has %d paths" % (fn.qual, len(outs)), call)
@@ -1248,7 +1280,45 @@ class VN:
             res.append((s2, o.ret if o.status == "return" and o.ret is not None else NONE))
         return res
 
+    def _undecided_ifexp(self, s, st):
+        """the condition term of the first conditional expression in statement `s` (outside lambdas / comprehensions) that the path
+        condition does not decide yet; None if there is none"""
+        if not isinstance(s, (ast.Assign, ast.AugAssign, ast.AnnAssign, ast.Expr, ast.Return)):
+            return None
+        stack = [s]
+        while stack:
+            n = stack.pop()
+            if isinstance(n, (ast.Lambda, ast.ListComp, ast.GeneratorExp, ast.SetComp, ast.DictComp, ast.FunctionDef)):
+                continue
+            if isinstance(n, ast.IfExp):
+                try:
+                    c = self._as_term(self.ev(n.test, st.fork()))
+                except Unrecognised:
+                    return None
+                if is_tuple(c) or not isinstance(c, T.Poly) or c in (TRUE, FALSE) or c.as_fraction() is not None:
+                    pass
+                elif all(any(x == k for k in st.conds) for x in conjuncts(c)) or all(any(x == k for k in st.conds) for x in conjuncts(negate(c))):
+                    pass
+                elif T.apps(c, "ifexp"):
+                    pass
+                else:
+                    return c
+            stack.extend(ast.iter_child_nodes(n))
+        return None
+
     def stmt(self, s, st):
+        # `x = a if c else b` is `if c: x = a  else: x = b`: the statement is evaluated on both paths (so that effects inside an arm,
+        # e.g. a call that is recorded as an event, belong to that path only)
+        c_ = self._undecided_ifexp(s, st)
+        if c_ is not None and len(st.conds) < 40:
+            s1, s2 = st.fork(), st.fork()
+            for x in conjuncts(c_):
+                if not any(x == k for k in s1.conds):
+                    s1.conds.append(x)
+            for x in conjuncts(negate(c_)):
+                if not any(x == k for k in s2.conds):
+                    s2.conds.append(x)
+            return self.stmt(s, s1) + self.stmt(s, s2)
         # a call of an unknown helper as a whole statement (or as the whole right-hand side) is read through path by path
         callnode = s.value if isinstance(s, (ast.Expr, ast.Assign)) and isinstance(getattr(s, "value", None), ast.Call) else None
         if callnode is not None:
@@ -1334,6 +1404,14 @@ class VN:
             return self.block(s.body, [st])
         if isinstance(s, ast.If):
             c = self._as_term(self.ev(s.test, st))
+            if isinstance(c, T.Poly) and T.apps(c, "ifexp") and not getattr(st, "_splitting", False):
+                # the test reads a value that is a conditional expression: decide it on each of the paths that expression stands for
+                parts = self.split_ifexp([st])
+                if len(parts) > 1:
+                    outs_ = []
+                    for p_ in parts:
+                        outs_.extend(self.stmt(s, p_))
+                    return outs_
             if is_tuple(c):
                 c = TRUE if len(c) > 0 else FALSE  # truthiness of a sequence of known length
             nc = negate(c)
@@ -1553,6 +1631,19 @@ def _replace_atom(t, old_atom, new_term):
         return T.atom_poly(a)
 
     return rb(t)
+
+
+def _dotted_of(v):
+    """'self.A.H' for the term attr:H(self.A) / a plain symbol name for a symbol; None otherwise"""
+    a = v.single_atom() if isinstance(v, T.Poly) else None
+    if a is None:
+        return None
+    if a[0] == "sym" and not a[3] and not a[1].startswith(("'", '"', "<", "@", "$")):
+        return a[1]
+    if a[0] == "app" and a[1].startswith("attr:") and len(a[2]) == 1:
+        b = _dotted_of(T.dec(a[2][0]))
+        return None if b is None else b + "." + a[1][5:]
+    return None
 
 
 def _is_strlit(v):
